@@ -55,6 +55,7 @@ var targets = []target{
 	{Pkg: "internal/httprule/gwbased", Name: "isHexDigit"},
 	// C14
 	{Pkg: "routing", Name: "parseRPCName"},
+	{Pkg: "bridgedesc", Name: "CanonicalRPCName"},
 	// C13
 	{Pkg: "webbridge", Name: "closeReason"},
 	// C10: the code → HTTP status table webbridge.errorStatus uses lives in the grpc-gateway dependency
@@ -632,6 +633,57 @@ func (t *tr) libCall(x *ast.CallExpr, o *types.Func) string {
 			fail(x, "strconv.ParseInt: only base 10, bitSize 64 is modelled")
 		}
 		return "(GB.Trans.parseInt10 " + e(0) + ")"
+	case "fmt.Sprintf":
+		// only a constant format made of literal text and %s verbs, every argument a string-represented value
+		// without String/Error/Format/GoString methods: then the result is plain concatenation
+		format := t.constString(x.Args[0], "format")
+		var parts []string
+		lit := ""
+		ai := 1
+		for i := 0; i < len(format); i++ {
+			if format[i] != '%' {
+				lit += string(format[i])
+				continue
+			}
+			if i+1 < len(format) && format[i+1] == '%' {
+				lit += "%"
+				i++
+				continue
+			}
+			if i+1 >= len(format) || format[i+1] != 's' || ai >= len(x.Args) {
+				fail(x, "fmt.Sprintf: only %%s verbs with matching arguments are modelled (format %q)", format)
+			}
+			i++
+			if lit != "" {
+				parts = append(parts, bytesLit(lit))
+				lit = ""
+			}
+			at := t.typeOf(x.Args[ai])
+			if t.lt(x.Args[ai]) != tBytes {
+				fail(x.Args[ai], "fmt.Sprintf: %%s argument of type %s is not modelled", at)
+			}
+			for _, m := range []string{"String", "Error", "Format", "GoString"} {
+				for _, T := range []types.Type{at, types.NewPointer(at)} {
+					if o, _, _ := types.LookupFieldOrMethod(T, true, t.pkg.Types, m); o != nil {
+						if _, isFunc := o.(*types.Func); isFunc {
+							fail(x.Args[ai], "fmt.Sprintf: argument type %s has a %s method (formatting is not plain)", at, m)
+						}
+					}
+				}
+			}
+			parts = append(parts, e(ai))
+			ai++
+		}
+		if ai != len(x.Args) {
+			fail(x, "fmt.Sprintf: %d arguments for format %q", len(x.Args)-1, format)
+		}
+		if lit != "" {
+			parts = append(parts, bytesLit(lit))
+		}
+		if len(parts) == 0 {
+			return bytesLit("")
+		}
+		return "(" + strings.Join(parts, " ++ ") + ")"
 	case "fmt.Errorf", "errors.New":
 		// a non-nil error; the message is not modelled (error results are Bool: true = non-nil)
 		return "true"
